@@ -280,7 +280,7 @@ def rt_cases(draw):
         n = min(n, 3)
         mag, dec = draw(_mag), draw(st.integers(1, 6))
         vals = [[round(math.sin(0.37 * k + i) * mag, dec) for k in range(long_t)] for i in range(n)]
-    kind = draw(st.sampled_from(["none", "str", "str_mixed", "int0", "int1", "float", "str_punct", "str_words", "str_unicode"]))
+    kind = draw(st.sampled_from(["none", "str", "str_mixed", "int0", "int1", "float", "str_punct", "str_words", "str_unicode", "str_separators"]))
     if kind == "none":
         labels = None
     elif kind == "str_punct":
@@ -294,7 +294,9 @@ def rt_cases(draw):
                 # labels of several words (a blank inside the label)
                 "str_words": ["gun draw", "no gun", "x y z"],
                 # labels outside ASCII (the file is text; what is written is what is read)
-                "str_unicode": ["caf\u00e9", "z\u00fcrich", "\u03b4\u03b5", "\u6771\u4eac"]}[kind]
+                "str_unicode": ["caf\u00e9", "z\u00fcrich", "\u03b4\u03b5", "\u6771\u4eac"],
+                # characters that some text routines treat as line boundaries although they are not newlines
+                "str_separators": ["up\x0chill", "a\x0bb", "p\u2028q", "r\u2029s", "u\x85v", "f\x1cg", "h\x1ei"]}[kind]
         k = draw(st.integers(1, 3))
         labels = [pool[draw(st.integers(0, k - 1))] for _ in range(n)]
     return {"values": vals, "labels": labels, "labels_as_array": draw(st.booleans()),
